@@ -41,8 +41,21 @@
    At the end the observables recomputed from the log (user future started / finished / cancelled, result, dropped, slot
    started / ended, and the order of all these and of the other operations' starts and ends; the future "resolves" at T's last
    section on the result cell before the harness reports Ok) are compared with the model's ghost log.
-   SKIP: status not ok; no future_sync; body prims other than t / w<e>; future_sync nested in a body; suspend (U); a future on
-   the same object awaited with .sync() (F..s: its queue job has no marker).
+   Body primitives c and o<e>-<e2> of the future_sync are played with PRIVATE events of the model (numbered from the program's ev on):
+     c            UAwait x: `api COOPYIELD` = the await finds x not fired (LEvent), then x fires at once (AEvent x: CoopYield wakes its
+                  own waker during the poll); the second, silent poll of CoopYield is the await of the fired x (taken lazily)
+     o<e>-<e2>    UAwait x, where x fires in the model together with the first of e, e2 (sf/api FIRE); `api EITHERREG e e2` /
+                  `api EITHERREADY e` = the await of x, pending / ready (LEvent, compared).  The waker left behind on the other
+                  event is called when that one fires: AWake (counted as stale_waker_called) while the call is still alive.
+   The future modes k<n>l<m> need nothing special: the drop point is the marker sf DROPFUT.  With them a `queue_ready.send` that
+   returned ok can have its line after the lines of the drop: it is replayed before the receiver's drop.
+   Mode i (run-on-wake executor) of OTHER futures: their polls are made inside wake-up calls, also inside T's own
+   `task_finished.send` / sender drop.  Between the early replay of such a line of T and the line itself, what T's thread does is
+   attributed to a foreign runner, not to T's poll (counted as inline_poll_inside_T_wake when an api INLINEWAKE lies in between).
+   A call whose body has other primitives, or on whose object a stream is piped (I/J) or a future is awaited with .sync() (F..s:
+   those queue jobs have no marker) is not replayed but still is an `other operation` for the other calls of the log; the log is
+   SKIPped only if none of its calls can be replayed.
+   SKIP also: status not ok; no future_sync; future_sync nested in a body; suspend (U, u: queue-level objects).
    A poll by block_on without the model's task having been woken is accepted (AWake, counted as wake_delivered_late) only if
    an earlier wake-up of the task found it already woken: the calls of wakers are not atomic with the steps that take them.
    Blind spots (tamper.py): sf FIRE of an event nobody waits for afterwards, or fired twice; markers of other operations (an
@@ -64,35 +77,37 @@ let trace = ref false
 let single = ref false
 
 (* ---------- program text ---------- *)
-type yop = { yobj : int; ybody : uprim list option }
-type pinfo = { nev : int; ys : yop list array (* per caller, top-level Y operations in order *); has_u : bool; sync_objs : int list (* objects with a future awaited by .sync() *) }
+(* body primitives: touch, await event, co-operative yield, await either of two events *)
+type bprim = BT | BW of int | BC | BO of int * int
+type yop = { yobj : int; ybody : bprim list option }
+type pinfo = { nev : int; ys : yop list array (* per caller, top-level Y operations in order *); has_u : bool; sync_objs : int list (* objects with a future awaited by .sync() *);
+               pipe_objs : int list (* objects a stream is piped into / through *) }
 
 let parse_prog (text : string) : pinfo =
   let parts = Array.of_list (String.split_on_char '|' text) in
   let header = parts.(0) in
   let nev = (try Scanf.sscanf (List.find (fun w -> String.length w > 3 && String.sub w 0 3 = "ev=") (String.split_on_char ' ' header)) "ev=%d" (fun x -> x) with _ -> 0) in
-  let has_u = ref false and sync_objs = ref [] in
+  let has_u = ref false and sync_objs = ref [] and pipe_objs = ref [] in
   let num s from = let n = String.length s in let j = ref from in
     while !j < n && s.[!j] >= '0' && s.[!j] <= '9' do incr j done;
     (int_of_string (String.sub s from (!j - from)), !j) in
-  let parse_body (b : string) : uprim list option =
+  let parse_body (b : string) : bprim list option =
     let n = String.length b in
     let rec go j acc =
       if j >= n then Some (List.rev acc)
       else match b.[j] with
-        | 't' -> go (j + 1) (UTouch :: acc)
-        | 'w' -> let (e, j') = num b (j + 1) in go j' (UAwait (nat_of_int e) :: acc)
+        | 't' -> go (j + 1) (BT :: acc)
+        | 'c' -> go (j + 1) (BC :: acc)
+        | 'w' -> let (e, j') = num b (j + 1) in go j' (BW e :: acc)
+        | 'o' -> let (e, j1) = num b (j + 1) in
+          if j1 < n && b.[j1] = '-' then (let (e2, j2) = num b (j1 + 1) in go j2 (BO (e, e2) :: acc)) else None
         | _ -> None in
-    go 0 [] in
+    (try go 0 [] with _ -> None) in
   let ys = Array.init (Array.length parts - 1) (fun c ->
       let toks = List.filter (fun x -> x <> "") (String.split_on_char ' ' parts.(c + 1)) in
       List.concat_map (fun t ->
-          if t.[0] = 'U' then has_u := true;
-          (* harness features added after this driver was written: not interpreted here, the log is skipped *)
-          if t.[0] = 'u' || t.[0] = 'B' || t.[0] = 'M' || t.[0] = 'm' then raise (Unsupported ("operation " ^ String.make 1 t.[0] ^ " (not interpreted by this driver)"));
-          (let n = String.length t in
-           if (t.[0] = 'F' || t.[0] = 'A') && n > 0 && t.[n - 1] = 'i' then raise (Unsupported "a future awaited on the run-on-wake executor (mode i): its polls are made by the waking threads");
-           if (t.[0] = 'F' || t.[0] = 'A' || t.[0] = 'Y') && (try ignore (Str.search_forward (Str.regexp "k[0-9]+l[0-9]+$") t 0); true with Not_found -> false) then raise (Unsupported "a future kept for a while before it is dropped (mode k<n>l<m>)"));
+          if t.[0] = 'U' || t.[0] = 'u' then has_u := true;
+          if t.[0] = 'I' || t.[0] = 'J' then pipe_objs := fst (num t 1) :: !pipe_objs;
           if (t.[0] = 'F' || t.[0] = 'A') && t.[String.length t - 1] = 's' then sync_objs := fst (num t 1) :: !sync_objs;
           let inner = (try let a = String.index t '[' in String.sub t (a + 1) (String.rindex t ']' - a - 1) with Not_found -> "") in
           if t.[0] <> 'Y' && String.contains inner 'Y' then raise (Unsupported "future_sync nested in another operation's body");
@@ -100,7 +115,7 @@ let parse_prog (text : string) : pinfo =
             let (q, _) = num t 1 in
             [ { yobj = q; ybody = parse_body inner } ] end
           else []) toks) in
-  { nev; ys; has_u = !has_u; sync_objs = !sync_objs }
+  { nev; ys; has_u = !has_u; sync_objs = !sync_objs; pipe_objs = !pipe_objs }
 
 (* ---------- printing ---------- *)
 let show_pc = function
@@ -134,7 +149,11 @@ let cov : (string, int) Hashtbl.t = Hashtbl.create 32
 let hit name = Hashtbl.replace cov name (1 + (match Hashtbl.find_opt cov name with Some n -> n | None -> 0))
 
 (* ---------- the future_sync calls of a log ---------- *)
-type inst = { oid : int; tT : int; cr : int; cf : int; fres : int; obj : int; body : uprim list; at : int (* index of YNEW *) }
+(* [body = None]: the body uses primitives this driver does not interpret; the call is then only an `other operation` for the
+   other calls on its object.  c and o are played with private events of the model: [priv] gives, for each private event
+   (numbered from the program's ev on), `C or `O (e, e2) *)
+type pkind = PC | PO of int * int
+type inst = { oid : int; tT : int; cr : int; cf : int; fres : int; obj : int; body : (uprim list * (int * pkind) list) option; at : int (* index of YNEW *) }
 
 let find_instances (p : pinfo) (evs : ev array) : inst list =
   let caller_of : (int, int) Hashtbl.t = Hashtbl.create 8 in
@@ -151,7 +170,15 @@ let find_instances (p : pinfo) (evs : ev array) : inst list =
         let n = (match Hashtbl.find_opt nth_y e.task with Some n -> n | None -> 0) in
         Hashtbl.replace nth_y e.task (n + 1);
         let y = (try List.nth p.ys.(c) n with _ -> raise (Unsupported "more future_sync calls in the log than in the caller's script")) in
-        let body = (match y.ybody with Some b -> b | None -> raise (Unsupported "body of the future_sync uses more than touch / await")) in
+        let body = (match y.ybody with
+            | None -> None
+            | Some b ->
+              let next = ref p.nev and priv = ref [] in
+              let prims = List.map (function
+                  | BT -> UTouch | BW e -> UAwait (nat_of_int e)
+                  | BC -> let x = !next in incr next; priv := (x, PC) :: !priv; UAwait (nat_of_int x)
+                  | BO (e, e2) -> let x = !next in incr next; priv := (x, PO (e, e2)) :: !priv; UAwait (nat_of_int x)) b in
+              Some (prims, List.rev !priv)) in
         (match Hashtbl.find_opt last_os e.task, Hashtbl.find_opt last_fres e.task with
          | Some (b :: a :: _), Some f -> res := { oid = e.id; tT = e.task; cr = a; cf = b; fres = f; obj = y.yobj; body; at = k } :: !res
          | _ -> raise (Diverge (Printf.sprintf "event %d: sf YNEW %d without two oneshot channels and a result cell created by task %d" k e.id e.task)))
@@ -184,7 +211,11 @@ let replay_one (p : pinfo) (evs : ev array) (insts : inst list) (y : inst) (st :
                    Array.iteri (fun k e -> if not !stop then begin
                        if e.kind = "sf" && e.cls = "YDONE" && e.id = y.oid then (stop := true; if e.snap = "dropped" || e.snap = "err" then r := -1)
                        else if e.kind = "cs" && e.cls = "fres" && e.id = y.fres && e.task = y.tT && k > y.at then r := k end) evs; !r) in
-  let s = ref (init true (nat_of_int !nb) (nat_of_int !na) y.body (nat_of_int y.oid) (nat_of_int p.nev)) in
+  let (ybody, priv) = (match y.body with Some b -> b | None -> raise (Unsupported "internal: uninterpreted body")) in
+  let nev_total = p.nev + List.length priv in
+  let s = ref (init true (nat_of_int !nb) (nat_of_int !na) ybody (nat_of_int y.oid) (nat_of_int nev_total)) in
+  let fired_in_model x = (match List.nth_opt !s.evs x with Some c -> c.fired | None -> false) in
+  let stale : (int, unit) Hashtbl.t = Hashtbl.create 4 in  (* private `either` events with a waker left behind on the partner event *)
   let cur = ref 0 in
   let div fmt = Printf.ksprintf (fun m -> raise (Diverge (Printf.sprintf "future_sync op %d, event %d: %s" y.oid !cur m))) fmt in
   (* wake-ups of T that found it already woken: the call of a waker is not atomic with the step that takes it (e.g. the two
@@ -213,7 +244,14 @@ let replay_one (p : pinfo) (evs : ev array) (insts : inst list) (y : inst) (st :
   (* silent steps of the user future that leave no trace: its poll begins, touches *)
   let settle_user () =
     (match !s.pc, !s.sst with PLoop, SWaitFuture -> do_step ATask None "future.poll_unpin begins" | _ -> ());
-    while (match !s.pc, !s.uscr with PUser, UTouch :: _ -> true | _ -> false) do do_step ATask None "touch" done in
+    let continue = ref true in
+    while !continue do
+      (match !s.pc, !s.uscr with
+       | PUser, UTouch :: _ -> do_step ATask None "touch"
+       | PUser, UAwait x :: _ when List.mem_assoc (i x) priv && List.assoc (i x) priv = PC && fired_in_model (i x) ->
+         do_step ATask (Some LEvent) "the co-operative yield is over (second poll of CoopYield)"
+       | _ -> continue := false)
+    done in
   (* field drops that leave no trace *)
   let settle_drop () =
     let continue = ref true in
@@ -224,6 +262,9 @@ let replay_one (p : pinfo) (evs : ev array) (insts : inst list) (y : inst) (st :
        | _ -> continue := false)
     done in
   let active = ref true and sigdrop : int option ref = ref None in
+  (* T's own `send` / sender drop whose line was replayed early: until that line, what T's thread does happens inside the
+     wake-up calls of that operation (a run-on-wake executor polls another future there), not in T's own poll *)
+  let nested_until = ref (-1) in
   let owe_rxdrop_ready = ref false and owe_rxdrop_fin = ref false and in_body = ref false in
   (* the implementation's observables, from the log in log order *)
   let impl_seq = ref [] in
@@ -242,7 +283,7 @@ let replay_one (p : pinfo) (evs : ev array) (insts : inst list) (y : inst) (st :
     go (!cur + 1) in
   let rec handle (k : int) =
     let e = evs.(k) in
-    let t = e.task in
+    let t = if e.task = y.tT && k < !nested_until then -1 else e.task in
     e.used <- true;
     match e.kind, e.cls with
     | "sf", "POLL" when t = y.tT && !active && k > y.at ->
@@ -309,10 +350,39 @@ let replay_one (p : pinfo) (evs : ev array) (insts : inst list) (y : inst) (st :
       if fired <> (e.snap = "ready") then div "the user future found event %d %s, in the model it is %s" e.id e.snap (if fired then "fired" else "not fired");
       hit (if fired then "await_ready" else "await_pending");
       do_step ATask (Some LEvent) "the user future awaits an event"
-    | "sf", "FIRE" ->
+    | ("sf" | "api"), "FIRE" ->
       (match List.nth_opt !s.evs e.id with
-       | Some c when not c.fired -> do_step (AEvent (nat_of_int e.id)) (Some LEvent) "event fired"
+       | Some c when not c.fired && e.id < p.nev ->
+         do_step (AEvent (nat_of_int e.id)) (Some LEvent) "event fired";
+         (* the select-like await of the body: its model event fires with the first of its two events; the second one calls a stale waker *)
+         List.iter (fun (x, kd) -> match kd with
+             | PO (e1, e2) when e.id = e1 || e.id = e2 ->
+               if not (fired_in_model x) then do_step (AEvent (nat_of_int x)) (Some LEvent) "either-event of the body fired"
+               else if Hashtbl.mem stale x && !active then begin
+                 Hashtbl.remove stale x; hit "stale_waker_called";
+                 do_step AWake None "the second event of a select-like await calls the waker left behind" end
+             | _ -> ()) priv
        | _ -> ())
+    | "api", "COOPYIELD" when t = y.tT && !active && !in_body ->
+      if not (in_user ()) then div "the user future yields co-operatively, but the model's task is not polling it (model: %s)" (show_state !s);
+      settle_user ();
+      (match !s.uscr with
+       | UAwait x :: _ when List.mem_assoc (i x) priv && List.assoc (i x) priv = PC && not (fired_in_model (i x)) ->
+         hit "coop_yield";
+         do_step ATask (Some LEvent) "CoopYield: Pending";
+         do_step (AEvent x) (Some LEvent) "CoopYield: it has woken its own waker"
+       | _ -> div "the user future yields co-operatively, the model's script is not at a yield (model: %s)" (show_state !s))
+    | "api", ("EITHERREG" | "EITHERREADY") when t = y.tT && !active && !in_body ->
+      if not (in_user ()) then div "the user future polls a select-like await, but the model's task is not polling it (model: %s)" (show_state !s);
+      settle_user ();
+      (match !s.uscr with
+       | UAwait x :: _ when List.mem_assoc (i x) priv && (match List.assoc (i x) priv with PO (e1, e2) -> (if e.cls = "EITHERREG" then e.id = e1 && e.snap = string_of_int e2 else e.id = e1 || e.id = e2) | PC -> false) ->
+         let f = fired_in_model (i x) in
+         if f <> (e.cls = "EITHERREADY") then div "the select-like await of the body is %s, in the model its event is %s" (if e.cls = "EITHERREADY" then "ready" else "pending") (if f then "fired" else "not fired");
+         hit (if f then "either_ready" else "either_pending");
+         if not f then Hashtbl.replace stale (i x) ();
+         do_step ATask (Some LEvent) "select-like await of the body"
+       | _ -> div "the user future polls a select-like await, the model's script is not there (model: %s)" (show_state !s))
     | "os", cls when e.id = y.cr -> handle_ready k e cls
     | "os", cls when e.id = y.cf -> handle_fin k e cls
     | "cs", "fres" when e.id = y.fres -> handle_fres k e
@@ -324,11 +394,13 @@ let replay_one (p : pinfo) (evs : ev array) (insts : inst list) (y : inst) (st :
         let e = evs.(j) in
         if not e.used && e.kind = "os" && e.id = chan && e.cls = cls then begin
           hit ("pull_forward_" ^ why);
-          let saved = !cur in handle j; cur := saved; true end
+          let saved = !cur in handle j; cur := saved;
+          if e.task = y.tT && chan = y.cf then (nested_until := j; if Array.exists (fun x -> x.kind = "api" && x.cls = "INLINEWAKE" && x.task = y.tT) (Array.sub evs saved (j - saved)) then hit "inline_poll_inside_T_wake");
+          true end
         else go (j + 1) in
     go (!cur + 1)
   and handle_ready (k : int) (e : ev) (cls : string) =
-    let t = e.task in
+    let t = if e.task = y.tT && k < !nested_until then -1 else e.task in
     match cls with
     | "send" ->
       (* S1 of the slot job; the dequeue of the slot job has no event of its own *)
@@ -351,6 +423,9 @@ let replay_one (p : pinfo) (evs : ev array) (insts : inst list) (y : inst) (st :
       do_step ATask (Some LReadyPoll) "recv.poll_unpin"
     | "rxdrop" ->
       if t <> y.tT then div "task %d drops the queue_ready receiver" t;
+      (* a send that returned ok happened before the receiver was dropped, wherever its line is *)
+      if not !s.ready.o_sent && Array.exists (fun x -> not x.used && x.kind = "os" && x.cls = "send" && x.id = y.cr && x.snap = "ok") evs then
+        ignore (pull_forward y.cr "send" "ready_send_before_receiver_drop");
       (match !s.pc, !s.sst with
        | PDropState, SWaitQueue -> do_step ATask (Some LDrop) "drop(state): the queue_ready receiver is dropped"
        | _ ->
@@ -360,7 +435,7 @@ let replay_one (p : pinfo) (evs : ev array) (insts : inst list) (y : inst) (st :
     | "txdrop" -> div "the queue_ready sender was dropped unsent (the slot job was destroyed)"
     | _ -> ()
   and handle_fin (k : int) (e : ev) (cls : string) =
-    let t = e.task in
+    let t = if e.task = y.tT && k < !nested_until then -1 else e.task in
     match cls with
     | "poll" ->
       (match !s.cur with CSlot QS2 -> () | _ -> div "done_recv is polled, the model's queue is at %s (model: %s)" (show_cur !s.cur) (show_state !s));
@@ -388,7 +463,7 @@ let replay_one (p : pinfo) (evs : ev array) (insts : inst list) (y : inst) (st :
       owe_rxdrop_fin := false
     | _ -> ()
   and handle_fres (k : int) (e : ev) =
-    let t = e.task in
+    let t = if e.task = y.tT && k < !nested_until then -1 else e.task in
     if k = ret_index then push "ret";
     if t = y.tT && !active && !sigdrop <> Some t && !s.pc = PDrainJob && is_other !s.cur then
       (hit "other_op_suspends_in_T_drain"; do_step AOSusp None "the other operation run by drain_queue returns Pending");
@@ -427,7 +502,7 @@ let () =
       | "--trace" -> trace := true; false
       | "--single" -> single := true; false
       | _ -> true) args in
-  let ok = ref 0 and bad = ref 0 and skipped = ref 0 and steps = ref 0 and labelled = ref 0 and events = ref 0 and calls = ref 0 in
+  let ok = ref 0 and bad = ref 0 and skipped = ref 0 and steps = ref 0 and labelled = ref 0 and events = ref 0 and calls = ref 0 and calls_skipped = ref 0 and partial = ref 0 in
   List.iter (fun file ->
       let ic = open_in file in
       let prog = ref "" and status = ref "" and evs = ref [] and ended = ref false in
@@ -451,15 +526,23 @@ let () =
            if p.has_u then raise (Unsupported "suspend (U) in the program: queue-level objects");
            let insts = find_instances p evs in
            if insts = [] then raise (Unsupported "no future_sync call in the log");
-           if List.exists (fun y -> List.mem y.obj p.sync_objs) insts then raise (Unsupported "a future on the same object is awaited with .sync(): its job on the queue is not announced by a marker");
+           (* a call is replayed unless its body or its object has something this driver cannot see; the other calls of the log are *)
+           let why_not y =
+             if y.body = None then Some "body of the future_sync uses more than t / w / c / o"
+             else if List.mem y.obj p.pipe_objs then Some "a stream is piped into the same object: its poll jobs on the queue are not announced by a marker"
+             else if List.mem y.obj p.sync_objs then Some "a future on the same object is awaited with .sync(): its job on the queue is not announced by a marker"
+             else None in
+           let todo = List.filter (fun y -> why_not y = None) insts in
+           List.iter (fun y -> match why_not y with Some w -> (incr calls_skipped; hit ("call_not_replayed: " ^ w)) | None -> ()) insts;
+           if todo = [] then raise (Unsupported (match why_not (List.hd insts) with Some w -> w | None -> "?"));
            if !single then begin
              let objs = List.map (fun y -> y.obj) insts in
              if List.length (List.sort_uniq compare objs) <> List.length objs then raise (Unsupported "several future_sync calls on one object (--single)") end;
            let st = { steps = 0; labelled = 0 } in
-           List.iter (fun y -> replay_one p evs insts y st) insts;
-           incr ok; calls := !calls + List.length insts;
+           List.iter (fun y -> replay_one p evs insts y st) todo;
+           incr ok; calls := !calls + List.length todo; (if List.length todo < List.length insts then incr partial);
            steps := !steps + st.steps; labelled := !labelled + st.labelled; events := !events + Array.length evs;
-           Printf.printf "OK\t%s\t%d\t%d\n" file (List.length insts) st.steps
+           Printf.printf "OK\t%s\t%d\t%d\t%d\n" file (List.length todo) st.steps (List.length insts - List.length todo)
          with
          | Diverge msg -> incr bad; Printf.printf "DIVERGE\t%s\t%s\t%s\n" file !prog msg
          | Unsupported why -> incr skipped; Printf.printf "SKIP\t%s\t%s\n" file why
@@ -467,4 +550,4 @@ let () =
   let names = List.sort compare (Hashtbl.fold (fun k _ acc -> k :: acc) cov []) in
   Printf.printf "COVER\t%s\n" (String.concat "\t" (List.map (fun k -> Printf.sprintf "%s=%d" k (Hashtbl.find cov k)) names));
   Printf.printf "FACTS\tstate_dropped_first=%b\n" (f_state_dropped_first !facts);
-  Printf.printf "SUMMARY\tok=%d\tdiverged=%d\tskipped=%d\tmodel_steps=%d\tlabelled_steps=%d\tevents=%d\tfuture_sync_calls=%d\n" !ok !bad !skipped !steps !labelled !events !calls
+  Printf.printf "SUMMARY\tok=%d\tdiverged=%d\tskipped=%d\tmodel_steps=%d\tlabelled_steps=%d\tevents=%d\tfuture_sync_calls=%d\tcalls_not_replayed_in_ok_or_skipped_logs=%d\tok_logs_with_a_call_not_replayed=%d\n" !ok !bad !skipped !steps !labelled !events !calls !calls_skipped !partial
